@@ -202,7 +202,7 @@ def r7a(fb, rep):
                 rep.ok(R, None)
                 continue
             verdict, why = _consumer(b, c) if meth not in ("retain",) else ("insensitive", "retain visits every element; result is a set")
-            kk = (root, what.split("<")[0])
+            kk = (root, "%s::%s" % (what.split("<")[0], meth))
             if verdict == "insensitive":
                 rep.ok(R, "%s: %s has %s but the consumer is order-insensitive (%s)" % (root, what, cause.split(" (")[0], why))
             elif kk in exempt:
@@ -216,10 +216,28 @@ def r7a(fb, rep):
     n_sort = 0
     for b in pool:
         for c in b.calls():
-            if ("slice::<impl [T]>::sort" in c.res or c.res.endswith("::sort") or c.res.endswith("::sort_unstable") or c.res.endswith("::dedup")) and c.desc.get("ga"):
+            if ("slice::<impl [T]>::sort" in c.res or c.res.endswith("::sort") or c.res.endswith("::sort_unstable") or c.res.endswith("::dedup")
+                    or c.res.endswith("::binary_search")) and c.desc.get("ga"):
                 el = b.ty(c.desc["ga"][0])
                 n_sort += 1
-                m = _row_mentions(b, el, ao)
+                meth = c.res.rsplit("::", 1)[1]
+                if meth.endswith("_by") or meth.endswith("_by_key") or meth.endswith("_by_cached_key"):
+                    # custom comparator: by address only if the closure compares an address-ordered type with Ord
+                    m = None
+                    for a in c.args[1:]:
+                        for s_ in flow.sources(b, a, depth=4):
+                            if s_[0] == "closure":
+                                cb = fb.body(s_[1])
+                                for cc in (cb.calls() if cb is not None else []):
+                                    if cc.fn and cc.fn.rsplit("::", 1)[1] in ("cmp", "partial_cmp", "lt", "le", "gt", "ge") and "self" in cc.desc:
+                                        m = m or _row_mentions(cb, cb.ty(cc.desc["self"]), ao)
+                                    if m is None and cc.desc.get("ga"):
+                                        # key extraction closures of sort_by_key return the key type
+                                        pass
+                                if cb is not None and meth.endswith("_key"):
+                                    m = m or _row_mentions(cb, cb.local_ty(0), ao)
+                else:
+                    m = _row_mentions(b, el, ao)
                 root = b.get("root") or b.id
                 if m and (root, "sort") not in exempt:
                     rep.violation(R, "address-sort|%s" % root, "%s sorts elements ordered by address (%s)" % (root, m), c.where())
